@@ -1,2 +1,109 @@
-/-! Line-protocol driver of the Vr model (stub). -/
-def main : IO Unit := pure ()
+import SoxrModel.Vr.Model
+/-! Line-protocol driver of the variable-rate skeleton (`soxr_vr < ops`).  One op per line in, one canonical line out;
+    the check diffs these lines with what `harness/vr/trace.c` printed from the real code (integers only; the two
+    `double` fields travel as IEEE bit patterns).
+
+    Ops: `vr.create <bits>` · `vr.ratio <bits> <slew>` · `vr.proc <ilen> <olen>` · `vr.flush <olen>` ·
+         `api.set valid= sticky= nch= inited= vr= cur= r= slew=`
+
+    The floating-point expressions of vr32.c / soxr.c are evaluated here in IEEE binary64 (`Float`); at every ratio the
+    result is also compared with the exact dyadic evaluation `Num.exact` that the Lean witnesses use — a difference is
+    printed (`ORACLE-MISMATCH`) and so fails the correspondence. -/
+namespace Soxr.Vr.Driver
+open Soxr.Vr
+
+def half : Float := Float.ofBits 0x3FE0000000000000
+def ln2 : Float := Float.ofBits 0x3FE62E42FEFA39EF      -- M_LN2
+def eps15 : Float := Float.ofBits 0x3CD203AF9EE75616    -- 1e-15
+
+partial def halvings (x : Float) (n : Nat) : Nat := if x > 1.0 ∧ n < 5000 then halvings (x * half) (n + 1) else n
+
+/-- IEEE evaluation of the three expressions; a `double` is its bit pattern. -/
+def fNum : Num UInt64 :=
+  { stepOf := fun b m => ((Float.ofBits b) * (Float.ofNat m) + half).toInt64.toInt,
+    octave := fun b => (Float.floor (Float.log (Float.ofBits b) / ln2)).toInt64.toInt,
+    numStages := fun b => halvings (Float.ofBits b) 0 }
+
+def fApi : ApiNum UInt64 :=
+  { le0 := fun b => Float.ofBits b <= 0.0,
+    close := fun a b => Float.abs (Float.ofBits a - Float.ofBits b) < eps15 }
+
+def cfg : Cfg UInt64 := { num := fNum, fixF13 := pinnedFixF13 }
+
+/-- does IEEE arithmetic agree with the exact dyadic evaluation for this ratio, for every `step_mult` there is? -/
+def oracleAgrees (b : UInt64) : Bool :=
+  (List.range 35).all fun k => fNum.stepOf b (2 ^ k) == exactStepOf b.toNat (2 ^ k)
+
+def kvs (toks : List String) : List (String × String) :=
+  toks.filterMap fun t => match t.splitOn "=" with
+    | [k, v] => some (k, v)
+    | _ => none
+def getNat (m : List (String × String)) (k : String) : Nat := ((m.lookup k).getD "").toNat?.getD 0
+
+def b2n (b : Bool) : Nat := if b then 1 else 0
+def optBits : Option UInt64 → Nat
+  | some b => b.toNat
+  | none => 0
+
+def streamStr (s : Stream) : String := s!"{s.clk}/{s.step}/{s.ss}/{s.len}/{s.sn}/{b2n s.isD}"
+
+def stateLine (s : St UInt64) : String :=
+  let occ := String.join (s.stages.toList.map fun st => s!"{st.occ}/{b2n st.fast}/{st.xf},")
+  s!"S ns0={s.ns0} ns={s.ns} fl={s.fl} fade={s.fade} slew={s.slew} xfade={s.xfade} inc={b2n s.inc} sw={s.sw} " ++
+  s!"newr={optBits s.newR} defr={optBits s.defR} oocc={s.oocc} occ={occ} cur={streamStr s.cur} fo={streamStr s.fo}"
+
+structure DSt where
+  st : St UInt64 := {}
+
+def procLine (p : PRes UInt64) (olen : Nat) : DSt × String :=
+  let o := output p.st olen
+  ({ st := o.1 }, s!"R od={o.2} mis={p.nmis} " ++ stateLine o.1)
+
+def step (d : DSt) (line : String) : DSt × Option String :=
+  let toks := (line.trimAscii.toString.splitOn " ").filter (· ≠ "")
+  match toks with
+  | ["vr.create", b] =>
+    let bits := (b.toNat?.getD 0).toUInt64
+    let s := init cfg bits
+    ({ st := s }, some ("C vr=1 " ++ stateLine s ++ (if oracleAgrees bits then "" else " ORACLE-MISMATCH")))
+  | ["vr.ratio", b, slew] =>
+    let bits := (b.toNat?.getD 0).toUInt64
+    let s := setIoRatio cfg d.st bits (slew.toNat?.getD 0)
+    ({ st := s }, some (stateLine s ++ (if oracleAgrees bits then "" else " ORACLE-MISMATCH")))
+  | ["vr.proc", ilen, olen] =>
+    let ol := olen.toNat?.getD 0
+    let (d', s) := procLine (process cfg (input d.st (ilen.toNat?.getD 0)) ol) ol
+    (d', some s)
+  | ["vr.flush", olen] =>
+    let ol := olen.toNat?.getD 0
+    let (d', s) := procLine (process cfg (flush d.st) ol) ol
+    (d', some s)
+  | "api.set" :: rest =>
+    let m := kvs rest
+    let cur := (getNat m "cur").toUInt64
+    let r := (getNat m "r").toUInt64
+    let p : Option (ApiSt UInt64) :=
+      if getNat m "valid" == 0 then none
+      else some { sticky := getNat m "sticky" != 0, nch := getNat m "nch", inited := getNat m "inited" != 0,
+                  isVR := getNat m "vr" != 0, ioRatio := cur }
+    let o := apiSetIoRatio fApi p r
+    let cur' := match o.st with
+      | some a => a.ioRatio.toNat
+      | none => 0
+    (d, some s!"A res={o.res.code} cur={cur'}")
+  | [] => (d, none)
+  | _ => (d, some "bad-op")
+
+partial def loop (h : IO.FS.Stream) (out : IO.FS.Stream) (d : DSt) : IO Unit := do
+  let line ← h.getLine
+  if line.isEmpty then return ()
+  let (d', o) := step d line
+  match o with
+  | some s => out.putStrLn s
+  | none => pure ()
+  loop h out d'
+
+end Soxr.Vr.Driver
+
+def main : IO Unit := do
+  Soxr.Vr.Driver.loop (← IO.getStdin) (← IO.getStdout) {}
